@@ -8,6 +8,8 @@ the flat state *after* the step; the answer is the context of that state compute
 genesis x_cfg=<id> x_n=<N> x_bal=<pattern> x_seed=<N> x_gmode=<kickstart|eth1> x_root=<H32> <CONFIG TOKENS> <FLAT STATE>
 slots x_to=<slot> x_pre=<H32> x_root=<H32> <FLAT STATE>            ProcessSlots only
 block x_slot=<slot> x_fork=<name> x_ssz=<hex> x_pre=<H32> x_root=<H32> <FLAT STATE>     ProcessSlots + block
+genfail x_pre=<H32>     written by the generator when it could not extend a chain on the code under test;
+                        the model answers `ok`, the Go side `generator-could-not-extend-chain` (a reported disagreement)
 reload x_pre=<H32>      from here on a second pair (state reloaded from SSZ bytes, fresh context) runs along
 endreload
 ```
@@ -50,6 +52,11 @@ def step (d : DState) (line : String) : DState × String :=
       let (kv, extra) := parseKV rest
       if !extra.isEmpty || d.cfg.isNone || d.root.isNone || kv.get? "x_pre" ≠ d.root then bad else
       ({ d with shadow := true }, "ok")
+    else if op = "genesisfail" then (d, "ok")   -- as `genfail`, for a chain whose genesis could not be built
+    else if op = "genfail" then
+      -- the generator could not extend a chain: on correct code this line is never generated
+      let (kv, extra) := parseKV rest
+      if !extra.isEmpty || d.cfg.isNone || kv.get? "x_pre" ≠ d.root then bad else (d, "ok")
     else if op = "endreload" then
       if rest.isEmpty && d.cfg.isSome then ({ d with shadow := false }, "ok") else bad
     else bad
